@@ -66,6 +66,46 @@ func TestVerifC17Child(t *testing.T) {
 	if mode == "nowait" {
 		dur = NoWaitCommit
 	}
+	if os.Getenv("VERIF_C17_ROLE") == "reread" {
+		// a ReadAndExit engine with a database of its own reads whatever the binlog files hold now
+		opt := verifC17BinlogOptions(dir)
+		opt.ReadAndExit = true
+		inner, err := fsbinlog.NewFsBinlog(&binlog2.EmptyLogger{}, opt)
+		if err != nil {
+			fail("NewFsBinlog", err)
+		}
+		e, err := OpenEngine(Options{
+			Path:                   filepath.Join(dir, os.Getenv("VERIF_C17_DB")),
+			APPID:                  verifC17AppID,
+			Scheme:                 verifC17Schema,
+			ReadAndExit:            true,
+			CacheMaxSizePerConnect: 10,
+		}, &verifC17Binlog{inner: inner, tr: tr, mode: mode}, verifC17Apply(false), verifC17Apply(true))
+		if err != nil {
+			fail("OpenEngine", err)
+		}
+		err = e.do(func(c Conn) error {
+			rows, err := verifC17Rows(c)
+			if err != nil {
+				return err
+			}
+			off, _, err := binlogLoadPosition(c)
+			if err != nil {
+				return err
+			}
+			tr.Emit("UpRO", "rows", rows, "off", off, "dbo", e.dbOffset)
+			return nil
+		})
+		if err != nil {
+			fail("Do(up)", err)
+		}
+		tr.Emit("CloseBegin")
+		if err := e.Close(context.Background()); err != nil {
+			fail("Close", err)
+		}
+		tr.Emit("Closed")
+		return
+	}
 	inner, err := fsbinlog.NewFsBinlog(&binlog2.EmptyLogger{}, verifC17BinlogOptions(dir))
 	if err != nil {
 		fail("NewFsBinlog", err)
